@@ -343,6 +343,8 @@ def oracle(line, out):
         return "harness rejected the case: %s" % out
     f = line.split("\t")
     o = X.parse_out(out)
+    if "tree" not in o or "ser" not in o or (f[1] == "src" and "in" not in o):
+        return "malformed harness output: %s" % out[:200]
     if f[1] == "tree":
         if len(f) > 3 and f[3] == "n":
             return None
